@@ -13,6 +13,7 @@ const (
 	pModElems = 100 + iota
 	pModMap
 	pModGhost
+	pModGhostAll
 )
 
 func (e *Exec) builtin(fr *frame, st *State, c *ssa.CallCommon, b *ssa.Builtin, args []Value, where string) (Value, bool) {
@@ -251,7 +252,7 @@ func (e *Exec) isIgnoredExt(fn *ssa.Function) bool {
 func (e *Exec) isPureExtBuiltin(fn *ssa.Function) bool {
 	switch fnKey(fn) {
 	case "errors.New", "fmt.Errorf", "fmt.Sprintf", "fmt.Sprint", "errors.Is", "errors.As", "fmt.Printf", "fmt.Println", "fmt.Fprint",
-		"regexp.MustCompile", "(*regexp.Regexp).FindStringSubmatch", "(*regexp.Regexp).FindAllStringSubmatch":
+		"regexp.MustCompile", "(*regexp.Regexp).FindStringSubmatch", "(*regexp.Regexp).FindAllStringSubmatch", "path/filepath.Join":
 		return true
 	}
 	return pkgPathOfFn(fn) == "time"
@@ -356,6 +357,40 @@ func (e *Exec) extBuiltinC(st *State, c *ssa.CallCommon, fn *ssa.Function, key s
 		return e.freshOf(st, "printf", sig.Results()), true
 	case "sort.Slice":
 		return e.sortSlice(st, args, where), true
+	case "path/filepath.Join":
+		// a deterministic function of its elements; the last element can be recovered (Base)
+		if c != nil {
+			if slv, ok := c.Args[0].(*ssa.Slice); ok {
+				if al, ok := slv.X.(*ssa.Alloc); ok {
+					if at, ok := al.Type().(*types.Pointer).Elem().Underlying().(*types.Array); ok && at.Len() <= 6 {
+						sv := e.asTerm(st, args[0], c.Args[0].Type())
+						name, srt := e.ti.elemComp(types.Typ[types.String], nil)
+						as := arraySort(SInt, srt)
+						H := e.heapComp(st, name, SInt, arraySort(SInt, as))
+						var els []Term
+						var sorts []string
+						for i := int64(0); i < at.Len(); i++ {
+							els = append(els, tSelect(tSelect(H, slArr(sv), as), tAdd(slOff(sv), tInt(i)), SStr))
+							sorts = append(sorts, SStr)
+						}
+						f := fmt.Sprintf("fpjoin.%d", at.Len())
+						e.smt.declareFun(f, sorts, SStr)
+						e.smt.declareFun("fpbase", []string{SStr}, SStr)
+						r := app(SStr, f, els...)
+						e.trusted("filepath.Join is a deterministic function of its elements and its last element can be recovered (simple names)")
+						if len(els) > 0 {
+							e.assumeGlobalOrDrop(tEq(app(SStr, "fpbase", r), els[len(els)-1]))
+						}
+						if len(els) > 1 {
+							// a path with a non-empty last element is longer than (hence different from) its first element
+							e.assumeGlobalOrDrop(tImp(tLt(tInt(0), app(SInt, "slen", els[len(els)-1])), tLt(app(SInt, "slen", els[0]), app(SInt, "slen", r))))
+						}
+						return r, true
+					}
+				}
+			}
+		}
+		return e.smt.fresh("fpjoin", SStr), true
 	case "regexp.MustCompile":
 		r := e.allocRef(st, "regexp")
 		if c != nil {
